@@ -223,6 +223,17 @@ const MULTI_POOL: [&str; 14] = [
 
 /// A value text: no CR, no LF; ASCII, '=', multi-byte UTF-8.
 pub fn gen_text(rng: &mut Rng, ascii_only: bool, long_ok: bool) -> String {
+    if long_ok && !ascii_only && rng.chance(1, 400) {
+        // scale: a value beyond 64 KiB (sometimes 128 KiB) of multi-byte text, shifted by
+        // 0..3 bytes so that characters lie across the multiples of 65536
+        let unit: &str = rng.pick_str(&["\u{e9}", "\u{20ac}", "\u{1f600}", "ab\u{e9}"]);
+        let target = *rng.pick(&[66_000usize, 70_000, 132_000]);
+        let mut s = "x".repeat(rng.urange(0, 3));
+        while s.len() < target {
+            s.push_str(unit);
+        }
+        return s;
+    }
     let n = if long_ok && rng.chance(1, 40) {
         rng.urange(200, 4096)
     } else if rng.chance(1, 8) {
@@ -259,6 +270,11 @@ pub fn gen_int(rng: &mut Rng) -> i64 {
 }
 
 pub fn gen_list(rng: &mut Rng, ascii_only: bool) -> Vec<String> {
+    if rng.chance(1, 500) {
+        // scale: a list of more than 255 / 256 / 1024 (rarely 65536) lines
+        let n = *rng.pick(&[257usize, 300, 1100, 4100]);
+        return (0..n).map(|i| format!("l{}", i)).collect();
+    }
     let n = rng.urange(1, 4);
     (0..n).map(|_| gen_text(rng, ascii_only, false)).collect()
 }
